@@ -4,10 +4,9 @@
 //! Finding class (KNOWN_FINDINGS.txt):
 //! * `F32-stale-page`  the list is recomputed on every query but the page number is only touched by
 //!   keys: an option / layout / dictionary call while the list is open (or a page number inherited from
-//!   such a state) leaves the current page ≥ the page count, or an open list with no candidates;
-//! * `F40-first-after-single-word`  chewing_cand_list_first on the simple engine's single-word list made
-//!   in front of a non-syllable symbol: the range swallows that symbol.
-//! Everything else is reported as `new`.
+//!   such a state) leaves the current page ≥ the page count, or an open list with no candidates.
+//! Everything else is reported as `new` (the former class `F40-first-after-single-word` was repaired in
+//! the code - `fix: init_single_word remembers the position of the word` - and is `new` again).
 use crate::step::*;
 use chewing::editor::keyboard::KeyCode;
 use std::cell::RefCell;
@@ -235,18 +234,11 @@ fn check_view(out: &mut Out, st: &Step, info: &SelInfo, v: &CandView, pre_sel: &
     // completeness of a phrase list against the dictionaries themselves
     if let Some(e) = &v.expect {
         if !e.all_syllables || e.range_len == 0 {
-            // F40: a rearward selector whose remembered cursor `orig` sits ON a non-syllable symbol (the
-            // simple engine's single-word selector remembers the cursor AFTER the word) was re-initialised
-            // from `orig` (chewing_cand_list_first): the range is begin..orig+1, syllables up to `orig`
-            let syms = symbols(st.post);
-            let f40 = e.range_len > 0
-                && !info.forward
-                && info.end == info.orig + 1
-                && info.begin < info.orig
-                && syms.get(info.orig).is_some_and(|t| t.starts_with('c'))
-                && (info.begin..info.orig).all(|i| syms.get(i).is_some_and(|t| t.starts_with('s')));
+            // (finding F40/F41 - chewing_cand_list_first on the simple engine's single-word list swallowed the
+            // following non-syllable symbol - was repaired by `fix: init_single_word remembers the position of
+            // the word`; it is no longer a known class: any such range is reported as new)
             STATS.with(|s| s.borrow_mut().non_syllable_ranges += 1);
-            fail(out, if f40 { "F40-first-after-single-word" } else { "new" }, &format!("the highlighted range {}..{} is empty or contains a non-syllable symbol ({} leading syllables)", info.begin, info.end, e.key.len()), st);
+            fail(out, "new", &format!("the highlighted range {}..{} is empty or contains a non-syllable symbol ({} leading syllables)", info.begin, info.end, e.key.len()), st);
             return;
         }
         STATS.with(|s| {
